@@ -5,6 +5,7 @@ import (
 	"math/rand/v2"
 	"sort"
 	"strings"
+	"sync"
 	"testing"
 
 	rconfig "github.com/dadrus/heimdall/internal/rules/config"
@@ -286,18 +287,21 @@ func TestC06(t *testing.T) {
 		"after which at least one probe answer changed.")
 	r.Assume("providers never create an already loaded source and never update/delete an unknown one (histories are generated accordingly)",
 		"rules sharing one expression carry equal backtracking flags")
-	rng := r.Stream("c06")
 	probes := c06Probes()
-	nHist := r.Pick(400, 30000)
+	nHist := r.Pick(600, 12000)
 	srcs := []string{"s1", "s2", "s3"}
 	r.Set("probe_requests", len(probes))
 
-	for h := 0; h < nHist && r.Violations() < 20; h++ {
+	// every history has its own PRNG stream (a function of seed and history index only), so the histories can be
+	// executed by a pool of workers without losing reproducibility
+	app.ParallelStarts = true
+	runHistory := func(h int) {
+		rng := r.Stream(fmt.Sprintf("c06-%d", h))
 		withDefault := rng.IntN(2) == 0
 		live, err := newRepoApp(withDefault)
 		if err != nil {
 			r.Inconclusive("app start: " + err.Error())
-			break
+			return
 		}
 		state := map[string]version{}
 		var hist []c06Op
@@ -319,14 +323,21 @@ func TestC06(t *testing.T) {
 				op = c06Op{Kind: "update", Src: src, V: genVersion(rng, src, cur)}
 			}
 			var opErr error
-			switch op.Kind {
-			case "create":
-				opErr = live.Proc.OnCreated(toRuleSet(src, op.V))
-			case "update":
-				opErr = live.Proc.OnUpdated(toRuleSet(src, op.V))
-			case "delete":
-				opErr = live.Proc.OnDeleted(toRuleSet(src, nil))
-			}
+			func() {
+				defer func() {
+					if x := recover(); x != nil {
+						opErr = fmt.Errorf("PANIC in heimdall: %v", x)
+					}
+				}()
+				switch op.Kind {
+				case "create":
+					opErr = live.Proc.OnCreated(toRuleSet(src, op.V))
+				case "update":
+					opErr = live.Proc.OnUpdated(toRuleSet(src, op.V))
+				case "delete":
+					opErr = live.Proc.OnDeleted(toRuleSet(src, nil))
+				}
+			}()
 			op.Accepted = opErr == nil
 			if opErr != nil {
 				op.Err = opErr.Error()
@@ -454,6 +465,24 @@ func TestC06(t *testing.T) {
 		}
 		_ = live.Stop()
 	}
+	var wg sync.WaitGroup
+	next := make(chan int, 64)
+	for w := 0; w < 8; w++ {
+		wg.Add(1)
+		go func() {
+			defer wg.Done()
+			for h := range next {
+				if r.Violations() < 20 {
+					runHistory(h)
+				}
+			}
+		}()
+	}
+	for h := 0; h < nHist; h++ {
+		next <- h
+	}
+	close(next)
+	wg.Wait()
 	r.Count("histories", nHist)
 	r.Require("nontrivial_histories", r.Counter("nontrivial_histories"), int64(nHist/4))
 	r.Require("rejected_ops", r.Counter("ops_rejected"), 10)
